@@ -68,6 +68,10 @@ class FunctionTable(Table):
     def __init__(self, word_wrap=False):
         self.wrap = word_wrap
         self.summary_wrap = word_wrap
+        # a summary none of whose lines exceeds the width needs no wrapping: it comes back as it was
+        import os
+
+        self.summary_exact_within = int(os.environ.get("DOCTRANS_LINE_LENGTH", 100))
 
     def accept_default(self, name, p, pf):
         d = p.get("default", ABSENT)
@@ -142,8 +146,9 @@ class ArgparseTable(Table):
             elif not self.expressible(t):
                 acc.append(canon_default(""))  # str fallback, required -> zero value of str
                 acc.append(("none",))
-            else:
-                acc.append(("none",))
+            elif t.startswith("Optional["):
+                acc.append(("none",))  # not required <-> None
+            # a required List[...] / Literal[...] option has no business acquiring None
             return acc
         return [canon_default(d)]
 
